@@ -715,11 +715,113 @@ def shipped_files(ck):
                 ck.broken_tie(f'model Stil.{f} vs real on {fn}', f'{str(res[f])[:200]} vs {x[:200]}')
 
 
+# ---------------------------------------------------------------------------------------------------------------
+# text level: the grammar itself (Model/StilText.lean through driver `stilparse`) against lark on the same texts
+from . import textmut
+_lark = None
+
+
+def lark_sexp(text):
+    """parse tree of the REAL grammar with all tokens kept: `rule[child,..]`, leaves percent-encoded; None = rejected"""
+    global _lark
+    from lark import Lark, Token
+    from kyupy import stil
+    if _lark is None or _lark[0] is not stil.GRAMMAR:
+        _lark = (stil.GRAMMAR, Lark(stil.GRAMMAR, parser='lalr', keep_all_tokens=True))
+    def sexp(t):
+        if isinstance(t, Token): return textmut.pct(str(t))
+        return f"{t.data}[{','.join(sexp(c) for c in t.children)}]"
+    try:
+        return sexp(_lark[1].parse(text))
+    except Exception:
+        return None
+
+
+def real_dicts(text):
+    """('ok', 'groups chains calls') from the real stil.parse, in the encoding of driver `stilparse`; ('raise', None)"""
+    from kyupy import stil
+    tp = textmut.pct
+    lj = lambda l, sep: sep.join(l) if l else '-'
+    on = lambda x: '~' if x is None else tp(x)
+    with common.quiet():
+        try:
+            s = stil.parse(text)
+        except Exception:
+            return 'raise', None
+    g = '~' if s.signal_groups is None else lj([tp(k) + ':' + lj([tp(x) for x in v], ',') for k, v in s.signal_groups.items()], '|')
+    c = lj([tp(k) + ':' + on(v[0]) + ':' + on(v[-1]) + ':' + lj([tp(x) for x in v[1:-1]], ',') for k, v in s.scan_chains.items()], '|')
+    l = lj([tp(cl.name) + ':' + lj([tp(k) + '=' + tp(v) for k, v in cl.parameters.items()], ',') for cl in s.calls], '|')
+    return 'ok', f'{g} {c} {l}'
+
+
+TEXT_ALPHABET = '{};:=+\'"! \n\t/0123456789.-abNWC\\'
+TEXT_FRAGMENTS = [' ', '\n', ' // c\n', '//c {\n', ' { }', ' { a { b } c }', ' ;', ' "x"', ' "a.b.SI"', ' !', ' + "y"', ' Ann {* x *}', ' C { "a"=0; }',
+                  ' W "w";', ' Macro "m";', ' "l":', ' Call "c" { "k"=01; }', ' ScanIn "i";', ' ScanOut "o";', ' ScanCells "a" ! "b";',
+                  ' ScanLength 3;', ' UserKeywords abc;', ' Header { }', ' PatternBurst "b" { }', ' SignalGroups { "g" = \'"a"\'; }',
+                  ' ScanStructures { ScanChain "1" { ScanCells "q"; } }', ' Pattern "p" { }', '{', '}', '"', "'", 'Call', 'C', 'W']
+B = 'ScanStructures { ScanChain "1" { ScanIn "si"; ScanOut "so"; ScanCells "a" ! "b.c.SI" ; } } Pattern "p" { Call "load_unload" { "si"=01; } }'
+HAND_TEXTS = ['', 'STIL 1.0;', 'STIL 1.0 ;' + B, 'STIL 1.0 { x { y } z } ' + B, 'STIL 1.0{}' + B, 'STIL1.0;' + B, 'STIL 1.0.0 ;' + B, 'STIL - ;' + B, 'STIL -.5;' + B, 'STIL 1. ;' + B,
+     'STIL 1.0; Header { a { b } c } ' + B, 'STIL 1.0; Header { a { b } c } x ' + B, 'STIL 1.0; Header { // }\n } ' + B, 'STIL 1.0; Header { x // }\n } ' + B,
+     'STIL 1.0; Header {}Signals{}Timing{}PatternExec{}Procedures{}MacroDefs{} ' + B, 'STIL 1.0; PatternBurst "b" { PatList { "p" { } } } ' + B, 'STIL 1.0; PatternBurst "b"{}' + B,
+     'STIL 1.0; UserKeywords abc; ' + B, 'STIL 1.0; UserKeywords ; ' + B, 'STIL 1.0; UserKeywords a1; ' + B, 'STIL 1.0; UserKeywords abc ; ' + B, 'STIL 1.0; UserKeywords\nabc;' + B,
+     'STIL 1.0; SignalGroups { "g" = \'"a" + "b"\'; "h" = \'"c"\' { ScanIn; } "g" = \'"z"\' "k"=\'"a"+\n"b"\'{x}; } ' + B, 'STIL 1.0; SignalGroups { } SignalGroups { "q" = \'"a"\' } ' + B,
+     'STIL 1.0; SignalGroups { "g" = \'"a" "b"\'; } ' + B, 'STIL 1.0; SignalGroups { "g" = "a"; } ' + B, 'STIL 1.0; SignalGroups { "g" = \'\'; } ' + B, 'STIL 1.0; SignalGroups { "g" = \'"a"\' ; ; } ' + B,
+     'STIL 1.0; SignalGroups { "g" = \'"a"\' {} {} } ' + B, 'STIL 1.0; SignalGroups { "g" = \'"a"\' {} W } ' + B,
+     'STIL 1.0; ScanStructures { ScanChain "1" { ScanCells "a"; } ScanChain "1" { ScanIn "i"; ScanCells "x.y" "q.SI.SI" "r.SIx.t" ! ! "u\nv.w"; ScanCells ; ScanOut "o"; ScanOut "o2"; ScanLength 03; ScanInversion 1; ScanMasterClock "c" ; } } Pattern "p" { }',
+     'STIL 1.0; ScanStructures { ScanChain "1" { ScanIn "i"; } } Pattern "p" { }', 'STIL 1.0; ScanStructures { } Pattern "p" { }', 'STIL 1.0; ScanStructures { ScanChain "1" { } } ScanStructures { } Pattern "p" { }',
+     'STIL 1.0; ScanStructures { ScanChain "1" { ScanCells "a" } } Pattern "p" { }', 'STIL 1.0; ScanStructures { ScanChain "1" { ScanCells!"a"!; ScanLength 3 ; ScanInversion1; ScanIn"x"; } } Pattern "p" { }',
+     'STIL 1.0; ScanStructures { ScanChain "1" { ScanLength x; } } Pattern "p" { }', 'STIL 1.0; Pattern "p" { }', 'STIL 1.0; ScanStructures { ScanChain "1" { ScanCells "a"; } }',
+     'STIL 1.0; ' + B + ' Pattern "q" { "l": W "w"; C { "a"=0; } Macro "m"; Ann {* x *} "l2" : Call "c" { } Call "d" { "k"=0 1\n2 ; "k"= // c\n 5{;"j"=;} }',
+     'STIL 1.0; ' + B + ' Pattern "q" { Call "d" { "k"=; } }', 'STIL 1.0; ' + B + ' Pattern "q" { Call "d" { "k" = v } }', 'STIL 1.0; ' + B + ' Pattern "q" { Callx "d" { } }', 'STIL 1.0; ' + B + ' Pattern "q" { Cx { } }',
+     'STIL 1.0; ' + B + ' Pattern "q" { C { } C { } Ann { } "x": }', 'STIL 1.0; ' + B + ' Pattern "q" { C { } W "w"; }', 'STIL 1.0; ' + B + ' Pattern "q" { C { } Pattern }', 'STIL 1.0; ' + B + ' Pattern "q" { Ann { } } Header { } } ',
+     'STIL 1.0; ' + B + ' Header { } "x"', 'STIL 1.0; ' + B + ' Header { } ;', 'STIL 1.0; ' + B + ' Header { } C { }', 'STIL 1.0; ' + B + '\n// end\n\t', 'STIL 1.0; ' + B + ' x', '// c\n STIL 1.0; ' + B, 'STIL 1.0; ' + B + ' W']
+
+
+def mutate_text(rng, t):
+    m = textmut.mutate(rng, t, TEXT_ALPHABET, TEXT_FRAGMENTS, ' \n;{}')
+    if rng.random() < 0.25: m = textmut.mutate(rng, m, TEXT_ALPHABET, TEXT_FRAGMENTS, ' \n;{}')
+    return m
+
+
+def text_level(ck, texts, origin):
+    """same parse tree (every token, every rule) or both reject; same accept/raise of transformer + StilFile.__init__;
+    when accepted: same signal_groups / scan_chains / calls dictionaries (the input of the post-parse model)"""
+    outs = textmut.drv([f'stilparse {textmut.pct(t)}' for t in texts])
+    for t, o in zip(texts, outs):
+        lt = lark_sexp(t)
+        if lt is None:
+            exp = 'syntax'
+        else:
+            st, rest = real_dicts(t)
+            exp = st + ' ' + lt + ('' if rest is None else ' ' + rest)
+        got = o
+        if exp.startswith('raise') and o != 'syntax': got = ' '.join(o.split(' ')[:2])
+        ck.case(key=('text', t), nontrivial=lt is not None, tag=[f'text:{origin}', 'text-result:' + exp.split(' ')[0]])
+        if got != exp:
+            i = next((k for k in range(min(len(got), len(exp))) if got[k] != exp[k]), min(len(got), len(exp)))
+            ck.broken_tie(f'STIL text model (grammar of stil.py) vs lark / stil.parse, {origin} text',
+                          f'real {exp[:40]} .. {exp[max(0, i - 100):i + 100]} != model {got[:40]} .. {got[max(0, i - 100):i + 100]}', inp={'text': t})
+
+
+def text_stream(ck, scale):
+    rng = ck.rng
+    try:
+        text_level(ck, HAND_TEXTS, 'hand-written')
+        text_level(ck, [mutate_text(rng, t) for t in HAND_TEXTS for _ in range(2 * scale)], 'mutated')
+        for it in range(40 * scale):
+            t = gen_case(rng)['text']
+            text_level(ck, [t], 'generated')
+            text_level(ck, [mutate_text(rng, t) for _ in range(4)], 'mutated')
+    except Exception as ex:
+        ck.broken_tie('STIL text model correspondence', f'{type(ex).__name__}: {ex}'[:300])
+
+
 def run(ck):
     ck.prove([dump_tables.generate], TARGETS, common.theorems_of('KyupyVerif/Props/C18.lean', 'KV.C18'))
     n = 120 * ck.scale
     shipped_files(ck)
     sweep(ck, n, lead=fixed_cases())
+    text_stream(ck, ck.scale)
     if ck.broken and not ck.violations:
         sweep(ck, n * 8)
     # one replay per class first (finish() writes the first five)
@@ -727,7 +829,7 @@ def run(ck):
     for v in ck.violations:
         (first if v['class'] not in seen else rest).append(v); seen.add(v['class'])
     ck.violations[:] = first + rest
-    ck.assumptions += ['lark grammar/lexer of stil.py: exercised through generated texts, not modelled (the model starts at the parse result)',
+    ck.assumptions += ['grammar/lexer of stil.py: modelled (Model/StilText.lean, round-trip theorem) and compared with lark on generated, hand-written and mutated texts (parse tree with all tokens, dictionaries); that lark implements the grammar as the model reads it is checked there, not proved',
                        'the 8-valued simulation inside tests_loc: theorem tests_loc_end_to_end speaks about StilSim.nxtOf (SimOps model + real '
                        '8-valued dispatch on the netlist dump); nxtOf = rows of the real LogicSim inside tests_loc and the hypotheses '
                        'compatB/wfB/orderOKB/forksOKB are compared / evaluated on every generated case (tags e2e:*); '
